@@ -98,11 +98,97 @@ def strata(tier):
     for f in fixed:
         for n in (2, 3):
             yield dict(f, sseed=n, n=n, doc=doc, feature="rewrite-site")
+    for of, specs in DIST_SPECS.items():
+        for which in range(len(specs)):
+            for fill in ((40, 300) if tier == "quick" else (40, 300, 1100, 2100)):
+                yield {"entry": "distance", "of": of, "which": which, "fill": fill, "sseed": fill + which}
     for ds in c10.DOC_SHAPES:
         for cast in (None, [["str", "int"]], [["str", "bool"]]):
             yield {"entry": "rule", "rule": {"path": PC.mkpath([{"p": "prim", "v": "a"}, {"p": "map", "key": {"prim": "b"}}]),
                                              "cond": PC.L("value", "is_instance", {"$type": "int"}), "cast": cast, "doc_spec": ds},
                    "sseed": 1, "n": 3, "doc": doc, "feature": "cast+doc"}
+
+
+DIST_SPECS = {
+    # entry -> mappings whose items are re-ordered (the same structure for ==) and re-parsed after many other parses
+    "part": [{"type": "list_value", "value.dtype.equal_to": "int", "value.greater_than": 1, "value.less_than": 9},
+             {"type": "map_value", "key.in": ["a", "b", "k"], "key.length.less_than": 3, "value.truthy": None, "label": "L"},
+             {"index.greater_than": 0, "index.less_than": 4, "index.not_equal_to": 2, "key.equal_to": "a"}],
+    "cond": [{"value.in_range": {"lower": 1, "upper": 5}}, {"value.items_contain": {"a": 1, "b": "2", "c": None}},
+             {"and": [{"value.greater_than": 1}, {"value.less_than": 9}, {"value.dtype.equal_to": "int"}]}],
+    "pathspec": [{"path.length": ["a", {"type": "map_value", "key.length.equal_to": 1, "value.truthy": None, "key.not_equal_to": "q"}]}],
+    "rule": [{"path": ["l", {"type": "list_value", "index.less_than": 4, "value.dtype.equal_to": "str", "index.greater_than": 0}],
+              "condition": {"value.length.greater_than": 0}, "cast": {"str": "int"}, "doc": "d"}],
+}
+DIST_DOC = {"a": {"x": 1, "y": 0, "zz": 3}, "l": ["1", "x", 3, "4", "5"], "b": 5, "k": [1, 2, 3, 4, 5]}
+
+
+def _orders(d, rng, k=4):
+    """the same mapping with its items in up to k different orders (nested mappings re-ordered too)"""
+    out = []
+    for i in range(k):
+        def reorder(x):
+            if type(x) is dict:
+                items = [(kk, reorder(v)) for kk, v in x.items()]
+                if i:
+                    rng.shuffle(items)
+                return dict(items)
+            if type(x) is list:
+                return [reorder(v) for v in x]
+            return x
+        v = reorder(d)
+        if all(list(v.items()) != list(o.items()) or repr(v) != repr(o) for o in out):
+            out.append(v)
+    return out
+
+
+def run_distance(case, ctx):
+    """a spec is parsed, very many OTHER specs are parsed, and the unchanged spec is parsed again"""
+    import valida
+    import valida.conditions as C
+    import valida.datapath as DP
+    entry, fill = case["of"], case["fill"]
+    parse = {"part": DP.ContainerValue.from_spec, "cond": C.ConditionLike.from_spec, "pathspec": DP.DataPath.from_spec,
+             "rule": valida.Rule.from_spec}[entry]
+    rng = G.rng_for("c16dist", case["sseed"])
+    variants = _orders(DIST_SPECS[entry][case["which"]], rng)
+    firsts = []
+    with warnings.catch_warnings():
+        warnings.simplefilter("ignore")
+        for v in variants:
+            ok, o = call(parse, M.deep_copy(v))
+            if not ok:
+                ctx.violate(f"C16/distance/{entry}/parse-raise:{o.type}", f"{v!r}: {o!r}")
+                return
+            firsts.append(o)
+        def filler(base):
+            for i in range(base, base + fill):
+                call(DP.ContainerValue.from_spec, {"type": "list_value", "index.equal_to": i, "value.not_equal_to": -i})
+                call(DP.ContainerValue.from_spec, {"type": "map_value", "key.equal_to": "k%d" % i})
+                call(C.ConditionLike.from_spec, {"value.equal_to": i})
+                call(C.ConditionLike.from_spec, {"or": [{"value.equal_to": i}, {"value.less_than": -i}]})
+                call(DP.DataPath.from_spec, {"path": ["f%d" % i, i]})
+                call(DP.DataPath.from_part_specs, "g%d" % i, {"type": "list_value", "index.less_than": i})
+                call(valida.Rule.from_spec, {"path": ["r%d" % i], "condition": {"value.equal_to": i}, "cast": {"str": "int"}})
+        pairs = list(zip(variants, firsts))
+        for rnd, seq in enumerate((pairs[::-1], pairs)):
+            filler(rnd * fill)
+            for v, first in seq:
+                ok, again = call(parse, M.deep_copy(v))
+                if not ok:
+                    ctx.violate(f"C16/distance/{entry}/reparse-raise:{again.type}", f"{v!r}: {again!r}")
+                    continue
+                okq, eq = call(lambda: (again == first, first == again))
+                if not okq or eq != (True, True):
+                    ctx.violate(f"C16/distance/{entry}/reparse-neq", f"{v!r} parsed again after {fill}x7 other parses gives {again!r}\n != its first parse {first!r}")
+                if entry == "rule" and c10.rule_fp(first, DIST_DOC) != c10.rule_fp(again, DIST_DOC):
+                    ctx.violate(f"C16/distance/{entry}/reparse-behaviour", f"{v!r}: first and later parse validate differently")
+                if entry == "pathspec" and c10.sel_fp(first, DIST_DOC) != c10.sel_fp(again, DIST_DOC):
+                    ctx.violate(f"C16/distance/{entry}/reparse-behaviour", f"{v!r}: first and later parse select differently")
+    ctx.count("entry:distance")
+    ctx.count("distance:variants", len(variants))
+    ctx.count("distance:filler-parses", fill * 14)
+    ctx.mark_nontrivial(("distance", entry, case["which"], case["sseed"]))
 
 
 def budget(tier):
@@ -111,6 +197,8 @@ def budget(tier):
 
 def required(m, tier):
     st, out = m["stats"], []
+    if st.get("entry:distance", 0) < 8:
+        out.append(f"long-distance re-parse histories: {st.get('entry:distance', 0)} < 8")
     for e in ENTRIES:
         if st.get("entry:" + e, 0) < 30:
             out.append(f"entry {e}: {st.get('entry:' + e, 0)} < 30")
@@ -125,6 +213,8 @@ def run(case, ctx):
     import valida.conditions as C
     import valida.datapath as DP
     entry = case["entry"]
+    if entry == "distance":
+        return run_distance(case, ctx)
     rng = G.rng_for("c16sp", case["sseed"], entry)
     sp = build.Spelling(rng)
     doc = case["doc"]
